@@ -91,6 +91,10 @@ func (s *Scanner) Scan(ctx context.Context, r *scan.Request) (result scan.Result
 	// ALL_PROXY): every probe gets a transport of its own, and the proxy settings are taken out again,
 	// so that the connection goes to the target itself
 	client := *s.client
+	// a redirect would take the probe to a host outside the target set: take the 3xx answer as it is
+	client.CheckRedirect = func(*http.Request, []*http.Request) error {
+		return http.ErrUseLastResponse
+	}
 	tr, _ := s.client.Transport.(*http.Transport)
 	if tr != nil {
 		tr = tr.Clone()
